@@ -36,9 +36,12 @@ def build(seed: int, pid: str, ncfg: int) -> Tuple[Dict[str, Any], List[Dict[str
     if pid in ("C01", "C02") and rs.chance(opts.get("p_shapes", 0.1 if pid == "C02" else 0.05)):
         progs = [P.gen_shape_program(Stream(seed, "shape", pid), h64(seed, "cfg", c) % (1 << 31)) for c in range(ncfg)]
         return {"meta": progs[0]["meta"], "points": {}, "blocks": [], "chops": progs[0]["ops"]}, progs
-    geo = P.gen_assembly(rs.sub("geo"), opts)
-    geo = P.add_curved(rs.sub("curved"), geo, opts)
-    geo = P.place_chops(rs.sub("chops"), geo, opts)
+    if pid == "C01" and rs.chance(0.1):
+        geo = camp_row(rs.sub("camps"))
+    else:
+        geo = P.gen_assembly(rs.sub("geo"), opts)
+        geo = P.add_curved(rs.sub("curved"), geo, opts)
+        geo = P.place_chops(rs.sub("chops"), geo, opts)
     if pid == "C02" and rs.chance(0.2):
         # patches and merged pairs: vertices on a slave patch are duplicated, which cuts edge families
         # at the merged interface (the reference model takes that into account)
@@ -73,6 +76,45 @@ def build(seed: int, pid: str, ncfg: int) -> Tuple[Dict[str, Any], List[Dict[str
         geo["rewrite_back"] = bool(moves) and mr.chance(0.5)
     programs = [P.make_program(geo, h64(seed, "cfg", c) % (1 << 31), identity=(c == 0)) for c in range(ncfg)]
     return geo, programs
+
+
+def camp_row(rs: Stream) -> Dict[str, Any]:
+    """A row of 4-5 boxes, every one chopped in the same cross direction; the first k demand one
+    count, the others another (or, in a third of the cases, the same: then the file must be written).
+    The conflict sits between two blocks that each have an agreeing neighbour on their other side."""
+    n = rs.pick([4, 4, 5])
+    axis_row = rs.randrange(3)
+    cells = [tuple(i if d == axis_row else 0 for d in range(3)) for i in range(n)]
+    spacing = [rs.uniform(0.7, 1.4) for _ in range(3)]
+    points: Dict[str, List[float]] = {}
+    blocks = []
+    for i, c in enumerate(cells):
+        corners = []
+        for off in hexref.CORNER_POS:
+            node = (c[0] + off[0], c[1] + off[1], c[2] + off[2])
+            pid_ = f"n{node[0]}_{node[1]}_{node[2]}"
+            points.setdefault(pid_, [round(node[k] * spacing[k], 6) for k in range(3)])
+            corners.append(pid_)
+        blocks.append({"name": f"b{i}", "cell": list(c), "corners": corners})
+    cross = rs.pick([d for d in range(3) if d != axis_row])
+    k = rs.randint(1, n - 1)
+    n1 = rs.randint(2, 9)
+    n2 = n1 if rs.chance(0.33) else n1 + rs.pick([1, 2, 3])
+    chops = []
+    for i in range(n):
+        chops.append({"block": f"b{i}", "axis": cross, "sections": [{"count": n1 if i < k else n2}]})
+    # the two other directions: one chop each, somewhere
+    for d in range(3):
+        if d != cross:
+            chops.append({"block": f"b{rs.randrange(n)}", "axis": d, "sections": [{"count": rs.randint(2, 5)}]})
+            if d != axis_row:
+                pass
+    # the remaining direction families: along the row every block is its own family
+    for i in range(n):
+        if not any(ch["block"] == f"b{i}" and ch["axis"] == axis_row for ch in chops):
+            chops.append({"block": f"b{i}", "axis": axis_row, "sections": [{"count": rs.randint(2, 4)}]})
+    return {"points": points, "blocks": blocks, "curved": {}, "chops": chops,
+            "meta": {"category": "camps" if n1 != n2 else "camps-agree", "adjacent_conflict": 1}}
 
 
 def evaluate(pid: str, program: Dict[str, Any], scheds: List[Dict[str, Any]], pre_files=None) -> Dict[str, Any]:
